@@ -3,6 +3,7 @@ from facts import hir_walk, callee_def, callee_of, variant_of
 from absint import TRUE, FALSE, UNK
 from positions import Pos, overlap
 import kinds as K
+import pathrules as P
 
 EXPLANATION = (
     "Checker/evaluator agreement, decided from the typed HIR of oal-compiler: for every syntactic position at which the "
@@ -162,6 +163,8 @@ def r1_agree(c, facts, T):
         pos, cast, g = row['pos'], row['cast'], row['guard']
         if cast not in T.accept:
             continue
+        if pos is None and row['via'] and row['via'] not in GENERAL_EVAL:
+            pos = ('<helper %s>' % row['fn'].split('::')[-1], row['via'].split('::')[-1])
         if pos is None:
             # Spec.refs: values stored by eval_declaration / eval_recursion, cast by cast_schema in eval_program
             if row['fn'].endswith('eval_program'):
@@ -251,7 +254,7 @@ def r1_agree(c, facts, T):
                               % (name, t, x, cast))
     c.floor(R, 'cast functions interpreted', len(T.accept), 11)
     c.floor(R, 'kind predicates interpreted', len(T.pred), 11)
-    c.floor(R, 'cast positions in the evaluator', len([r for r in es if r['pos']]), 19)
+    c.floor(R, 'cast positions in the evaluator', len([r for r in es if r['pos'] or (r['via'] and r['via'] not in GENERAL_EVAL)]), 17)
     c.floor(R, 'checked positions in typecheck.rs', len([r for r in ck if r['pos'] and r['pos'][0] != '<param>']), 18)
     c.floor(R, 'concrete constraints in inference::constrain', len([r for r in cs if r['tags'] and r['pos'] and r['pos'][0] != '<param>']), 9)
     c.floor(R, 'positions decided', npos, 20)
@@ -335,7 +338,7 @@ def r3_phase_order(c, facts):
         info = callee_of(t)
         if info:
             for p in PHASES + READERS:
-                if info['def'].endswith(p):
+                if P.callee_matches(info, [p]):
                     where[p] = bi
     for p in PHASES + READERS:
         if p not in where:
